@@ -1,3 +1,257 @@
-(* C12_Proofs.v *)
+(* C12_Proofs.v — lemmas and proofs for property C12 (request normalisation). *)
 From Adb Require Import Base BaseProofs Generated C12_Model.
 From Coq Require Import ZifyBool ZifyNat ZifyN.
+
+(* ------------------------------------------------------------------ small list facts *)
+Lemma all_ascii_app a b : all_ascii (a ++ b) = all_ascii a && all_ascii b.
+Proof. unfold all_ascii. apply forallb_app. Qed.
+
+Lemma all_ascii_nth s i : all_ascii s = true -> (i < length s)%nat -> is_ascii (nth i s 0) = true.
+Proof.
+  intros H Hi. unfold all_ascii in H. rewrite forallb_forall in H. apply H. apply nth_In. exact Hi.
+Qed.
+
+Lemma ascii_not_cont b : is_ascii b = true -> is_cont b = false.
+Proof. unfold is_ascii, is_cont, in_range. lia. Qed.
+
+Lemma length_take_le {A} n (l : list A) : (n <= length l)%nat -> length (take n l) = n.
+Proof. intros H. unfold take. rewrite firstn_length. lia. Qed.
+
+Lemma take_drop_mid {A} (a b c : list A) :
+  take (length b) (drop (length a) (a ++ b ++ c)) = b.
+Proof. rewrite drop_app_length. apply take_app_length. Qed.
+
+Lemma nth_mid {A} (a b : list A) (x d : A) : nth (length a) (a ++ x :: b) d = x.
+Proof. rewrite app_nth2 by lia. rewrite Nat.sub_diag. reflexivity. Qed.
+
+(* ------------------------------------------------------------------ char boundaries, slices *)
+Lemma boundary_zero s : is_char_boundary s 0 = true.
+Proof. reflexivity. Qed.
+
+Lemma boundary_len s : is_char_boundary s (length s) = true.
+Proof. unfold is_char_boundary. rewrite Nat.eqb_refl, orb_true_r. reflexivity. Qed.
+
+Lemma boundary_at a x b : is_cont x = false -> is_char_boundary (a ++ x :: b) (length a) = true.
+Proof.
+  intros H. unfold is_char_boundary. rewrite nth_mid, H.
+  rewrite app_length. cbn [length].
+  destruct (Nat.ltb_spec (length a) (length a + S (length b))); [|lia].
+  cbn. apply orb_true_r.
+Qed.
+
+(* an offset followed by nothing or by a byte that is not a continuation byte *)
+Definition starts_char (rest : str) : Prop := rest = [] \/ exists b r, rest = b :: r /\ is_cont b = false.
+
+Lemma boundary_before a rest : starts_char rest -> is_char_boundary (a ++ rest) (length a) = true.
+Proof.
+  intros [->|(b & r & -> & H)].
+  - rewrite app_nil_r. apply boundary_len.
+  - apply boundary_at. exact H.
+Qed.
+
+Lemma slice_mid a b c :
+  starts_char (b ++ c) -> starts_char c ->
+  slice (a ++ b ++ c) (length a) (length a + length b) = Ok b.
+Proof.
+  intros Hb Hc. unfold slice.
+  assert (H1 : is_char_boundary (a ++ b ++ c) (length a) = true) by (apply boundary_before; exact Hb).
+  assert (H2 : is_char_boundary (a ++ b ++ c) (length a + length b) = true).
+  { replace (a ++ b ++ c) with ((a ++ b) ++ c) by (rewrite app_assoc; reflexivity).
+    rewrite <- app_length. apply boundary_before. exact Hc. }
+  rewrite H1, H2.
+  assert (H3 : Nat.leb (length a) (length a + length b) = true) by (apply Nat.leb_le; lia).
+  assert (H4 : Nat.leb (length a + length b) (length (a ++ b ++ c)) = true).
+  { apply Nat.leb_le. rewrite !app_length. lia. }
+  rewrite H3, H4. cbn [andb].
+  replace (length a + length b - length a)%nat with (length b) by lia.
+  rewrite take_drop_mid. reflexivity.
+Qed.
+
+Lemma starts_char_ascii s rest : all_ascii s = true -> starts_char rest -> starts_char (s ++ rest).
+Proof.
+  intros Ha Hr. destruct s as [|x s]; [exact Hr|].
+  right. exists x, (s ++ rest). split; [reflexivity|].
+  apply ascii_not_cont. cbn in Ha. apply andb_true_iff in Ha. apply Ha.
+Qed.
+
+(* ------------------------------------------------------------------ UTF-8 encoding *)
+Lemma encode_cp_starts c : exists b r, encode_cp c = b :: r /\ is_cont b = false.
+Proof.
+  unfold encode_cp.
+  destruct (N.ltb c 128) eqn:E1; [exists c, []; split; [reflexivity|unfold is_cont, in_range; lia]|].
+  destruct (N.ltb c 2048) eqn:E2;
+    [eexists; eexists; split; [reflexivity|unfold is_cont, in_range; lia]|].
+  destruct (N.ltb c 65536) eqn:E3;
+    eexists; eexists; (split; [reflexivity|unfold is_cont, in_range; lia]).
+Qed.
+
+Lemma encode_all_starts l : starts_char (encode_all l).
+Proof.
+  destruct l as [|c l]; [left; reflexivity|].
+  right. cbn [encode_all flat_map]. destruct (encode_cp_starts c) as (b & r & -> & H).
+  exists b, (r ++ flat_map encode_cp l). split; [reflexivity|exact H].
+Qed.
+
+Lemma is_cont_to_lower b : is_cont (to_lower b) = is_cont b.
+Proof. unfold to_lower, is_upper, is_cont, in_range. destruct (N.leb 65 b && N.leb b 90) eqn:E; lia. Qed.
+
+Lemma lower_starts s : starts_char s -> starts_char (lower_str s).
+Proof.
+  intros [->|(b & r & -> & H)]; [left; reflexivity|].
+  right. exists (to_lower b), (lower_str r). split; [reflexivity|]. rewrite is_cont_to_lower. exact H.
+Qed.
+
+(* ------------------------------------------------------------------ scheme *)
+Definition scheme_char (c : N) : bool := is_lower c || is_digit c || N.eqb c PLUS || N.eqb c MINUS || N.eqb c DOT.
+
+Lemma scheme_loop_spec l s r :
+  scheme_loop l = Some (s, r) ->
+  forallb scheme_char s = true /\ length l = (length s + 1 + length r)%nat.
+Proof.
+  revert s r; induction l as [|c l IH]; intros s r H; cbn in H; [discriminate|].
+  destruct (N.eqb c COLON) eqn:E0.
+  { inversion H; subst. cbn. split; [reflexivity|lia]. }
+  destruct (is_lower c || is_digit c || N.eqb c PLUS || N.eqb c MINUS || N.eqb c DOT) eqn:E1.
+  { destruct (scheme_loop l) as [[s' r']|] eqn:E; [|discriminate]. inversion H; subst.
+    destruct (IH _ _ eq_refl) as [A B]. cbn [forallb length]. unfold scheme_char at 1. rewrite E1, A.
+    split; [reflexivity|lia]. }
+  destruct (is_upper c) eqn:E2; [|discriminate].
+  destruct (scheme_loop l) as [[s' r']|] eqn:E; [|discriminate]. inversion H; subst.
+  destruct (IH _ _ eq_refl) as [A B]. cbn [forallb length]. rewrite A.
+  split; [|lia]. rewrite andb_true_r. unfold scheme_char, is_lower, is_upper in *. lia.
+Qed.
+
+Lemma scheme_char_facts c : scheme_char c = true -> is_ascii c = true /\ c <> COLON.
+Proof.
+  unfold scheme_char, is_lower, is_digit, is_ascii, PLUS, MINUS, DOT, COLON. intros H. split; lia.
+Qed.
+
+Lemma scheme_chars_facts s : forallb scheme_char s = true -> all_ascii s = true /\ ~ In COLON s.
+Proof.
+  induction s as [|c s IH]; cbn [forallb]; intros H; [split; [reflexivity|cbn; tauto]|].
+  apply andb_true_iff in H as [H1 H2]. destruct (IH H2) as [A B].
+  destruct (scheme_char_facts c H1) as [C D]. unfold all_ascii in *. cbn [forallb]. rewrite C, A.
+  split; [reflexivity|]. intros [E|E]; [congruence|tauto].
+Qed.
+
+(* ------------------------------------------------------------------ userinfo *)
+Lemma hex_upper_ascii d : d < 16 -> is_ascii (hex_upper d) = true.
+Proof. unfold hex_upper, is_ascii. intros H. destruct (N.ltb d 10); lia. Qed.
+
+Lemma pct_encode_byte_ascii b : all_ascii (pct_encode_byte b) = true.
+Proof.
+  unfold pct_encode_byte. destruct (N.leb 128 b || in_userinfo_set b) eqn:E.
+  - cbn [all_ascii forallb].
+    rewrite (hex_upper_ascii ((b / 16) mod 16)) by (apply N.mod_lt; lia).
+    rewrite (hex_upper_ascii (b mod 16)) by (apply N.mod_lt; lia). reflexivity.
+  - cbn. unfold is_ascii. apply orb_false_iff in E. lia.
+Qed.
+
+Lemma pct_encode_ascii s : all_ascii (pct_encode_userinfo s) = true.
+Proof.
+  induction s as [|b s IH]; [reflexivity|]. unfold pct_encode_userinfo in *. cbn [flat_map].
+  rewrite all_ascii_app, pct_encode_byte_ascii, IH. reflexivity.
+Qed.
+
+Lemma userinfo_loop_spec n : forall input ser ues hp hu ser' hu' hp',
+  userinfo_loop n input ser ues hp hu = Some (ser', hu', hp') ->
+  exists ui, ser' = ser ++ ui /\ all_ascii ui = true.
+Proof.
+  induction n as [|n IH]; intros input ser ues hp hu ser' hu' hp' H; cbn [userinfo_loop] in H.
+  - inversion H; subst. exists []. rewrite app_nil_r. split; reflexivity.
+  - destruct (next_utf8 input) as [[c input']|]; [|discriminate].
+    destruct (N.eqb c COLON && negb ues).
+    + destruct (Nat.ltb 0 n).
+      * apply IH in H as (ui & -> & Hui). exists ([COLON] ++ ui). rewrite <- app_assoc.
+        split; [reflexivity|]. rewrite all_ascii_app, Hui. reflexivity.
+      * apply IH in H. exact H.
+    + apply IH in H as (ui & -> & Hui). exists (pct_encode_userinfo (encode_cp c) ++ ui).
+      rewrite <- app_assoc. split; [reflexivity|]. rewrite all_ascii_app, pct_encode_ascii, Hui. reflexivity.
+Qed.
+
+Lemma parse_userinfo_spec ser input sp ser' rem :
+  parse_userinfo ser input sp = POk (ser', rem) ->
+  exists ui, ser' = ser ++ ui /\ all_ascii ui = true.
+Proof.
+  unfold parse_userinfo. intros H.
+  assert (Hnil : exists ui, ser = ser ++ ui /\ all_ascii ui = true)
+    by (exists []; rewrite app_nil_r; split; reflexivity).
+  destruct (find_last_at sp input 0 None) as [[n remaining]|]; [|inversion H; subst; exact Hnil].
+  destruct n as [|n]; [inversion H; subst; exact Hnil|].
+  destruct (userinfo_loop (S n) input ser false false false) as [[[s1 hu] hp]|] eqn:E; [|discriminate].
+  apply userinfo_loop_spec in E as (ui & -> & Hui). inversion H; subst.
+  destruct (hu || hp).
+  - exists (ui ++ [AT]). rewrite <- app_assoc. split; [reflexivity|]. rewrite all_ascii_app, Hui. reflexivity.
+  - exists ui. split; [reflexivity|exact Hui].
+Qed.
+
+(* ------------------------------------------------------------------ host *)
+Section WithOracles.
+Variable idna : str -> option str.
+Variable psl : str -> nat * nat.
+Variable hash : str -> N.
+Variable tokenize : str -> list N.
+Hypothesis Hidna : idna_contract idna.
+
+Lemma parse_host_spec ser input sp ser' he rem :
+  parse_host idna ser input sp = POk (ser', he, rem) ->
+  exists host, ser' = ser ++ host /\ he = length ser' /\ all_ascii host = true.
+Proof.
+  unfold parse_host. destruct (host_scan sp input false false 0 0) as [[[hi ni] co] remaining].
+  set (hs := encode_all (if hi then take ni input else take co input)).
+  destruct (all_ascii hs) eqn:E.
+  - intros H; inversion H; subst. exists hs. repeat split; auto.
+  - destruct (idna hs) as [e|] eqn:Ei; [|discriminate].
+    intros H; inversion H; subst. exists e. repeat split; auto. eapply Hidna; eauto.
+Qed.
+
+(* what a successful scan looks like: scheme ':' mid host rest, everything up to the end of the
+   host is ASCII, the scheme has no ':' and the rest starts at a character boundary *)
+Record scanned (ser : str) (se hs he : nat) (scheme mid host rest : str) : Prop := {
+  sc_ser : ser = scheme ++ COLON :: mid ++ host ++ rest;
+  sc_se : se = length scheme;
+  sc_hs : hs = length (scheme ++ COLON :: mid);
+  sc_he : he = (hs + length host)%nat;
+  sc_scheme : forallb scheme_char scheme = true;
+  sc_mid : all_ascii mid = true;
+  sc_host : all_ascii host = true;
+  sc_rest : starts_char rest }.
+
+Lemma after_double_slash_scanned scheme input sp ser se hs he :
+  forallb scheme_char scheme = true ->
+  after_double_slash idna (scheme ++ [COLON]) input sp (length scheme) = POk (ser, se, hs, he) ->
+  exists mid host rest, scanned ser se hs he scheme mid host rest.
+Proof.
+  intros Hs. unfold after_double_slash.
+  destruct (parse_userinfo ((scheme ++ [COLON]) ++ [SLASH; SLASH]) input sp) as [[s1 rem1]|] eqn:E1; [|discriminate].
+  apply parse_userinfo_spec in E1 as (ui & -> & Hui).
+  destruct (parse_host idna _ rem1 sp) as [[[s2 he2] rem2]|] eqn:E2; [|discriminate].
+  apply parse_host_spec in E2 as (host & -> & -> & Hh).
+  intros H; inversion H; subst; clear H.
+  exists ([SLASH; SLASH] ++ ui), host, (encode_all rem2).
+  constructor; auto.
+  - rewrite <- !app_assoc. cbn. reflexivity.
+  - rewrite <- !app_assoc. cbn. reflexivity.
+  - rewrite !app_length. cbn [length]. lia.
+  - apply encode_all_starts.
+Qed.
+
+Lemma scan_chars_scanned input ser se hs he :
+  scan_chars idna input = POk (ser, se, hs, he) ->
+  exists scheme mid host rest, scanned ser se hs he scheme mid host rest.
+Proof.
+  unfold scan_chars. destruct (parse_scheme (trim_input input)) as [[scheme rem]|] eqn:E; [|discriminate].
+  assert (Hs : forallb scheme_char scheme = true).
+  { unfold parse_scheme in E. destruct (trim_input input) as [|c l]; [discriminate|].
+    destruct (is_alpha c); [|discriminate]. apply scheme_loop_spec in E. apply E. }
+  unfold parse_with_scheme. destruct (scheme_type_from scheme); [discriminate| |].
+  - intros H. exists scheme. eapply after_double_slash_scanned; eauto.
+  - unfold parse_non_special. destruct (split_double_slash rem) as [rest|].
+    + intros H. exists scheme. eapply after_double_slash_scanned; eauto.
+    + intros H; inversion H; subst; clear H.
+      exists scheme, [], [], (lower_str (encode_all rem)). constructor; auto.
+      * rewrite <- app_assoc. reflexivity.
+      * apply lower_starts. apply encode_all_starts.
+Qed.
+
+End WithOracles.
